@@ -220,9 +220,26 @@ def surround(rng, t, small=True):
     return mbi(pre + [t] + post)
 
 
+def special_words(rng, t, first=8):
+    """copies of the tag `t` with one aligned 32-bit word of its payload set to 0, 1 or 2^32-1 (field values a random fill never
+    produces: an accessor must return them like any other value)"""
+    out = []
+    words = list(range(first, len(t) - 3, 4))
+    rng.shuffle(words)
+    for o in words[:6]:
+        for v in (0, 1, 0xFFFFFFFF):
+            b = bytearray(t)
+            b[o:o + 4] = u32(v)
+            out.append(bytes(b))
+    return out
+
+
 def gen_wellformed(rng, n):
     out = []
     for k in sorted(KINDS):
+        if k in (3, 4, 5, 10, 11, 12, 14, 15, 19, 20, 21):
+            for t in special_words(rng, KINDS[k](rng)):
+                out.append(sweep(mbi([t])))
         for _ in range(3):
             out.append(sweep(mbi([KINDS[k](rng)])))
         out.append(sweep(mbi([KINDS[k](rng), KINDS[k](rng)])))           # duplicates: first match wins
@@ -298,7 +315,7 @@ def gen_elf(rng, tier):
     for es in ess:
         for n in (0, 1, 2, 3, 5):
             for present in sorted(set([0, 1, n, max(0, n - 1), n + 1])):
-                for shndx in sorted(set([0, 1, max(0, n - 1), n, n + 1, 0x10000, 0xFFFFFFFF])):
+                for shndx in sorted(set([0, 1, max(0, n - 1), n, n + 1, 0xFF00, 0xFFFE, 0xFFFF, 0x10000, 0xFFFFFFFF])):
                     if es not in (40, 64) and shndx > 1 and n > 1:
                         continue
                     body = u32(n) + u32(es) + u32(shndx) + b"".join(elf_entry(rng, es) for _ in range(present))
@@ -311,6 +328,20 @@ def gen_elf(rng, tier):
                     body = u32(n) + u32(es) + u32(shndx) + b"".join(elf_entry(rng, es, 1) for _ in range(n)) + rbytes(rng, resid)
                     out.append(sweep(surround(rng, tag(9, body, rng=rng))))
                     out.append("ELFNAME %d %d %d %s %s" % (es, n, shndx, hx(b"".join(elf_entry(rng, es, 1)[:0] + bytes(bytearray(u32(1)) + bytearray(elf_entry(rng, es, 1))[4:]) for _ in range(n)) + rbytes(rng, resid)), hx(b"\0ab\0")))
+    # reserved string-table indices (0xFF00.., 0xFFFF = "look elsewhere" in ELF files - here simply outside the tag) together
+    # with entries whose OTHER index-like words (link, info, entry size) are small numbers: nothing may redirect the lookup
+    for es in (40, 64):
+        for n in (1, 2, 3):
+            for shndx in (0xFF00, 0xFFF1, 0xFFFE, 0xFFFF):
+                for small in (0, 1, n - 1):
+                    ents = b""
+                    for _ in range(n):
+                        e = bytearray(elf_entry(rng, es, 1))
+                        for o in ((24, 28, 36) if es == 40 else (40, 44, 56)):
+                            e[o:o + 4] = u32(small)
+                        ents += bytes(e)
+                    out.append(sweep(mbi([tag(9, u32(n) + u32(es) + u32(shndx) + ents, rng=rng)])))
+                    out.append("ELFNAME %d %d %d %s %s" % (es, n, shndx, hx(ents), hx(b"\0.text\0.shstrtab\0")))
     for es in (40, 64):
         for typ in [0, 1, 2, 3, 4, 5, 6, 7, 8, 9, 10, 11, 12, 0x5FFFFFFF, 0x60000000, 0x6FFFFFFF, 0x70000000, 0x7FFFFFFF, 0x80000000, 0xFFFFFFFF]:
             body = u32(2) + u32(es) + u32(0) + elf_entry(rng, es, typ) + elf_entry(rng, es, 1)
@@ -527,6 +558,9 @@ def gen_headers_wellformed(rng, n):
             continue
         for _ in range(3):
             out.append(hsweep(header([rand_htag(rng, typ)], arch=rng.choice([0, 4]))))
+        if typ in (2, 3, 5, 8, 9):          # plain numeric fields: each word also as 0, 1, 2^32-1
+            for t in special_words(rng, rand_htag(rng, typ)):
+                out.append(hsweep(header([t], arch=rng.choice([0, 4]))))
         out.append(hsweep(header([rand_htag(rng, typ), rand_htag(rng, typ)])))
     for k in range(0, 9):
         out.append(hsweep(header([htag(1, 0, rbytes(rng, 4 * k), rng=rng)])))
